@@ -254,7 +254,9 @@ func WithManyStatements(t *rapid.T, x string) string {
 	return b.String() + x
 }
 
-// letters spells i with letters only (identifiers have no digits).
+// Letters spells i with letters only (identifiers have no digits).
+func Letters(i int) string { return letters(i) }
+
 func letters(i int) string {
 	s := ""
 	for {
